@@ -134,6 +134,22 @@ private:
     Index m_nconv;
     Matrix m_evecs;
 
+    // The first k cached eigenvectors divided by their singular values
+    // A column that belongs to a zero singular value is set to zero (the other factor is not determined there)
+    Matrix scaled_evecs(Index k) const
+    {
+        Matrix res = m_evecs.leftCols(k);
+        const Vector svals = singular_values();
+        for (Index j = 0; j < k; j++)
+        {
+            if (svals[j] > Scalar(0))
+                res.col(j) /= svals[j];
+            else
+                res.col(j).setZero();
+        }
+        return res;
+    }
+
 public:
     // Constructor
     PartialSVDSolver(ConstGenericMatrix& mat, Index ncomp, Index ncv) :
@@ -183,7 +199,8 @@ public:
     // The converged singular values
     Vector singular_values() const
     {
-        Vector svals = m_eigs->eigenvalues().cwiseSqrt();
+        // Rounding can make a zero eigenvalue of A'A (or AA') slightly negative: clamp before the square root
+        Vector svals = m_eigs->eigenvalues().cwiseMax(Scalar(0)).cwiseSqrt();
 
         return svals;
     }
@@ -201,7 +218,7 @@ public:
             return m_evecs.leftCols(nu);
         }
 
-        return m_mat * (m_evecs.leftCols(nu).array().rowwise() / m_eigs->eigenvalues().head(nu).transpose().array().sqrt()).matrix();
+        return m_mat * scaled_evecs(nu);
     }
 
     // The converged right singular vectors
@@ -217,7 +234,7 @@ public:
             return m_evecs.leftCols(nv);
         }
 
-        return m_mat.transpose() * (m_evecs.leftCols(nv).array().rowwise() / m_eigs->eigenvalues().head(nv).transpose().array().sqrt()).matrix();
+        return m_mat.transpose() * scaled_evecs(nv);
     }
 };
 
